@@ -7,11 +7,11 @@ package proxy
 // outcomes the specification permits.  A denied request must leave the upstream untouched.
 
 import (
-	"log"
 	"bytes"
 	"encoding/json"
 	"fmt"
 	"io"
+	"log"
 	"net"
 	"net/http"
 	"net/http/httptest"
